@@ -893,6 +893,23 @@ func (e *Engine) holds(q Req, facts []Fact, depth int) bool {
 		return false
 	}
 	for _, f := range facts {
+		// a boolean local built from several tests (`ok := a || b || c`): every
+		// way it can have the polarity must establish q
+		if phi, isPhi := f.V.(*ssa.Phi); isPhi {
+			alts := valueAlternatives(phi, f.Pol, 0)
+			if len(alts) > 1 {
+				all := true
+				for _, alt := range alts {
+					if !e.holds(q, alt, depth-1) {
+						all = false
+						break
+					}
+				}
+				if all {
+					return true
+				}
+			}
+		}
 		call, idx, kind, pol := calleeFact(f)
 		if call == nil {
 			continue
@@ -1176,4 +1193,51 @@ func borrow(e *Engine, r *Report, from string, rules ...string) {
 			r.add(o2)
 		}
 	}
+}
+
+// helper resolves a function that only *sharpens* a rule (a small predicate
+// or wrapper the rule names for precision). When it no longer exists - it
+// was inlined or removed - the rule falls back to its role-level form or
+// skips the obligations that name it, and the evidence lists the
+// degradation; it is not an alarm (DESIGN §2.3 "names only sharpen").
+func (r *Report) helper(name string) *ssa.Function {
+	f := r.e.Func(name)
+	if f == nil {
+		r.Degraded = append(r.Degraded, "helper "+name+" no longer exists (inlined or removed): obligations naming it are evaluated in role-level form or skipped")
+	}
+	return f
+}
+
+// funcByBase resolves a function by its full key or, failing that, as the
+// unique function or method of the same package with the same base name (a
+// method turned into a plain function, a receiver dropped or renamed).
+func (e *Engine) funcByBase(key string) *ssa.Function {
+	if f := e.Func(key); f != nil {
+		return f
+	}
+	base := key
+	if i := strings.LastIndex(key, "."); i >= 0 {
+		base = key[i+1:]
+	}
+	pkgPart := strings.TrimPrefix(key, "(*")
+	pkgPart = strings.TrimPrefix(pkgPart, "(")
+	if i := strings.Index(pkgPart, "."); i >= 0 {
+		pkgPart = pkgPart[:i]
+	}
+	var found *ssa.Function
+	for _, f := range e.ModFuncs {
+		if f.Name() != base || f.Parent() != nil {
+			continue
+		}
+		k := fname(f)
+		k = strings.TrimPrefix(strings.TrimPrefix(k, "(*"), "(")
+		if i := strings.Index(k, "."); i < 0 || k[:i] != pkgPart {
+			continue
+		}
+		if found != nil {
+			return nil
+		}
+		found = f
+	}
+	return found
 }
